@@ -143,6 +143,11 @@ def r3_lengths(ctx):
         ctx.ob("R3", "no-leftover:%s" % key.split("::")[-2], n >= want,
                "%d inner blob parse(s) end in has_more_bytes() -> Err(UnconsumedBytes)" % n if n >= want else
                "expected %d has_more_bytes -> Err checks, found %d" % (want, n), f)
+    # the number of decoded query rows is tied to the number of drawn positions: rows are hashed
+    # into the leaf list of verify_many, whose root reconstruction rejects a different leaf count
+    from .c19 import leaf_count
+    cnt, chow = leaf_count(p, "get_root")
+    ctx.ob("R3", "query-rows=positions", cnt, chow, p.fn("winter_crypto::merkle::proofs::BatchMerkleProof::<H>::get_root"))
     # domain length of every opening proof is compared with the expected domain
     for key in ("winter_air::proof::queries::Queries::parse", "winter_fri::proof::FriProof::parse_layers"):
         f = p.fn(key)
@@ -153,7 +158,7 @@ def r3_lengths(ctx):
 def run(ctx):
     ctx.rule("R1", "every field of Proof, Context, TraceInfo, ProofOptions, PartitionOptions, FriProof, FriProofLayer, Queries, OodFrame, Commitments, BatchMerkleProof is read in a function reachable from verify (not merely moved and dropped)", 35)
     ctx.rule("R2", "no parsed integer is narrowed before its sink unless bounded on every construction path of its owner", 2)
-    ctx.rule("R3", "collections consumed one by one have their length compared with the count the options imply; inner blobs are parsed to exact length; opening-proof domains are compared with the expected domain", 10)
+    ctx.rule("R3", "collections consumed one by one have their length compared with the count the options imply; inner blobs are parsed to exact length; opening-proof domains are compared with the expected domain; the row count of a query table is tied to the position count by the leaf-count check of get_root", 11)
     ctx.guard("R1", r1_liveness)
     ctx.guard("R2", r2_narrowing)
     ctx.guard("R3", r3_lengths)
